@@ -2,8 +2,9 @@
 import os, sys, json, time, re
 
 VERIF = os.path.dirname(os.path.dirname(os.path.abspath(__file__)))
-EVID = os.path.join(VERIF, 'evidence')
-REPLAYS = os.path.join(VERIF, 'replays')
+OUT = os.environ.get('VERIF_OUT', VERIF)       # tools/seed_sweep.py redirects evidence and replays of runs on mutated copies
+EVID = os.path.join(OUT, 'evidence')
+REPLAYS = os.path.join(OUT, 'replays')
 KNOWN = os.path.join(VERIF, 'known_findings.txt')
 
 class Inconclusive(Exception): pass
